@@ -196,6 +196,8 @@ pub struct World {
     pub unclaimed: Vec<(Duration, SocketAddr, Vec<u8>)>,
     /// every datagram the node under test sent (time, destination, bytes)
     pub all_sent: Vec<(Duration, SocketAddr, Vec<u8>)>,
+    /// every datagram simulated nodes delivered to the node under test (time, source, kind, bytes)
+    pub all_injected: Vec<(Duration, SocketAddr, &'static str, Vec<u8>)>,
     pub request_timeout: Duration,
     pub request_retries: u8,
     /// index of the datagram last injected during the current step, if any
@@ -267,6 +269,7 @@ impl World {
             talk_inbox: Vec::new(),
             unclaimed: Vec::new(),
             all_sent: Vec::new(),
+            all_injected: Vec::new(),
             request_timeout: cfg.request_timeout,
             request_retries: cfg.request_retries,
             last_injected: None,
@@ -604,6 +607,7 @@ impl World {
                 if f.to_victim {
                     fed = true;
                     let _ = self.wire.inject.send((f.addr, f.bytes.clone()));
+                    self.all_injected.push((now, f.addr, f.tag.via, f.bytes.clone()));
                     self.trace.push((now, WEv::Injected { from: f.addr, node: Some(f.node), label: f.tag.label.clone(), msg: f.tag.msg.clone() }));
                     self.last_injected = Some(Injected { from: f.addr, node: Some(f.node), tag: f.tag });
                 } else {
